@@ -196,7 +196,7 @@ def check_C02(ctx):
 
 def check_C04(ctx):
     import oracles
-    fs_property(ctx, "C04", "C04", ["C04_pos_arith", "C04_pos_unique", "C04_branches_dead", "C04_positions_stable", "C04_positions_wf", "C04_lastknown_not_before_content"], oracles.c04, classify=classify_update_unindexed)
+    fs_property(ctx, "C04", "C04", ["C04_pos_arith", "C04_pos_unique", "C04_branches_dead", "C04_positions_stable", "C04_positions_wf", "C04_lastknown_not_before_content", "C04_positions_designate_content", "C04_read_is_last_written", "C04_walk_shows_last_written", "C04_read_after_create"], oracles.c04, classify=classify_update_unindexed)
 
 
 def check_C05(ctx):
